@@ -537,14 +537,31 @@ theorem ostep_dLoadEntry {n : Nat} (ih : AllOnce cfg n) (name : Name) :
     SpecO cfg (dLoadEntry (n+1) cfg name) := by
   intro s hs
   simp only [dLoadEntry, wp_bind, wp_getSt]
-  cases hg : s.get .d (keyOf name) with
-  | some e => simp only [wp_pure]; exact hs
-  | none =>
+  have hbody : ∀ own : Option Entry,
+      wp (do
+        let r ← dFind n cfg name
+        let st ← getSt
+        match r, st.get .d (keyOf name) with
+        | some (some d), some (some d') =>
+          if d = d' then pure (some (some d))
+          else do
+            let e ← setEntry .d (keyOf name) (some d)
+            pure (some e)
+        | some (some d), _ => do
+          let e ← setEntry .d (keyOf name) (some d)
+          pure (some e)
+        | _, _ =>
+          match own with
+          | none => do
+            let e ← setEntry .d (keyOf name) none
+            pure (some e)
+          | some o => pure (some o)) (fun _ s' => InvOnce cfg s') (InvOnce cfg) s := by
+    intro own
     simp only [wp_bind]
     refine wp_mono (ih.dFind name s hs) ?_ (fun _ h => h)
     intro r s1 hs1
     simp only [wp_getSt]
-    have hgen : ∀ e : Entry, wp (do
+    have hset : ∀ e : Entry, wp (do
         let e ← setEntry .d (keyOf name) e
         pure (some e)) (fun _ s' => InvOnce cfg s') (InvOnce cfg) s1 := by
       intro e
@@ -552,16 +569,28 @@ theorem ostep_dLoadEntry {n : Nat} (ih : AllOnce cfg n) (name : Name) :
       refine wp_mono (once_setEntry hs1 .d (keyOf name) e) ?_ (fun _ h => h)
       intro e s2 hs2
       exact hs2.1
+    have hgen : wp (match own with
+        | none => do
+          let e ← setEntry .d (keyOf name) none
+          pure (some e)
+        | some o => pure (some o)) (fun _ s' => InvOnce cfg s') (InvOnce cfg) s1 := by
+      cases own with
+      | none => exact hset none
+      | some o => exact hs1
     match r, s1.get .d (keyOf name) with
     | some (some d), some (some d') =>
       simp only []
       by_cases hdd : d = d'
       · rw [if_pos hdd]; exact hs1
-      · rw [if_neg hdd]; simpa only [wp_bind] using hgen (some d)
-    | some (some d), some none => simpa only [wp_bind] using hgen _
-    | some (some d), none => simpa only [wp_bind] using hgen _
-    | some none, _ => simpa only [wp_bind] using hgen _
-    | none, _ => simpa only [wp_bind] using hgen _
+      · rw [if_neg hdd]; exact hset (some d)
+    | some (some d), some none => exact hset _
+    | some (some d), none => exact hset _
+    | some none, _ => exact hgen
+    | none, _ => exact hgen
+  match s.get .d (keyOf name) with
+  | some (some d) => simp only [wp_pure]; exact hs
+  | some none => exact hbody (some none)
+  | none => exact hbody none
 
 theorem allOnce (hgi : cfg.guardInit = true) : ∀ n, AllOnce cfg n
   | 0 => by
